@@ -619,7 +619,7 @@ func (p *pp) handleMethods(verb rune) (handled bool)
   assert [C06,C17] p.buf.gctx != 2 before "p.fmtString(msg, verb)"
   -- a SafeMessager declares its MESSAGE safe, not itself: while the safe context it opens is in force, what a bad
   -- verb would report (p.arg) must be that message (a string), not the value with its own, unsafe fields
-  assert [C02,C05] hasType(p.arg, "string") before "p.fmtString(msg, verb)"
+  assert [C02,C05] p.arg == msg before "p.fmtString(msg, verb)"
   assert [C06,C17] p.buf.gctx != 2 before "redactErrorFn(v, p, verb)"
   assert [C17] v == p.arg && (old(verb) == 119 ==> verb == 118) && (old(verb) != 119 ==> verb == old(verb)) before "redactErrorFn(v, p, verb)"
   assert [C17] othercalls == gother after "redactErrorFn(v, p, verb)"
